@@ -23,7 +23,7 @@ def sample_cases(path, k=3, pred=None):
 
 def run_cmdline_property(v, family, design_cfg, replay_cfg="MC_CmdLine_replay.cfg", module="MC_CmdLine",
                          signature=None, judge=None, driver=None, transform=None, name=None,
-                         extra_files=()):
+                         extra_files=(), enrich=None):
     """returns coverage dict pieces; v is the Verdict"""
     name = name or v.pid
     ensure_dirs()
@@ -42,6 +42,10 @@ def run_cmdline_property(v, family, design_cfg, replay_cfg="MC_CmdLine_replay.cf
     cov["states"] = rm["distinct"]
     cov["transitions"] = rm["states"]
     cov["replay_cached"] = rm["cached"]
+    if enrich:
+        ecases = os.path.join(WORK, f"{name}-{v.tier}-ecases.ndjson")
+        cov.update(enrich(cases, ecases) or {})
+        cases = ecases
     if transform:
         tcases = os.path.join(WORK, f"{name}-{v.tier}-tcases.ndjson")
         with open(tcases, "w") as w:
@@ -89,16 +93,25 @@ def run_driver(v, hbin, driver, name, signature):
     cpath = os.path.join(WORK, f"{name}-{v.tier}-dcases.ndjson")
     n = 0
     with open(cpath, "w") as w:
-        for i in range(driver["n"]):
+        i = 0
+        while n < driver["n"]:
             d = ddefs[i % len(ddefs)]
+            i += 1
+            env = linegen.random_env(rnd, d)
+            if "gen" in driver:
+                for tag, line in driver["gen"](rnd, d):
+                    w.write(json.dumps({"def": d["id"], "line": line, "env": env, "tag": tag, "grp": i}) + "\n")
+                    n += 1
+                continue
             line = linegen.random_line(rnd, d, driver.get("maxlen", 8), driver.get("mutate", 0.5),
                                        extras=driver.get("extras", ()))
-            env = linegen.random_env(rnd, d)
             w.write(json.dumps({"def": d["id"], "line": line, "env": env}) + "\n")
             n += 1
     trace = os.path.join(WORK, f"{name}-{v.tier}-trace.ndjson")
     mm = os.path.join(WORK, f"{name}-{v.tier}-dmm.ndjson")
     run_replay(hbin, dpath, cpath, mm, dump=trace)
+    if "post" in driver:
+        driver["post"](v, read_ndjson(trace))
     # slim the trace: TLC needs def id, line, env, got (class/value/kind/path/vtag)
     slim = trace + ".slim"
     with open(slim, "w") as w:
